@@ -32,7 +32,7 @@ class MultichainPolicyIteration(Plans):
             action_matrix=mdp.action_matrix.astype(bool),
             max_iterations=self.max_iterations
         )
-        state_gain, action_gain, state_bias, action_bias, _, iterations = results
+        state_gain, action_gain, state_bias, action_bias, final_policy, iterations = results
         gain_max_actions = np.isclose(
             action_gain, action_gain.max(-1, keepdims=True),
             atol=10**(-self.VALUE_DECIMAL_PRECISION),
@@ -44,6 +44,7 @@ class MultichainPolicyIteration(Plans):
             rtol=0
         )
         policy_matrix = gain_max_actions & bias_max_actions
+        policy_matrix[np.arange(len(policy_matrix)), final_policy] = True
         policy_matrix = policy_matrix/policy_matrix.sum(-1, keepdims=True)
         policy=TabularPolicy.from_state_action_lists(
             state_list=mdp.state_list,
